@@ -23,6 +23,10 @@ fn s_maps(t: &mut Tape, ctx: &mut Ctx) -> Result<(), Failure> {
     if g.witnesses.is_empty() {
         ctx.label("no-witness");
     }
+    ctx.label(&format!("witnesses:{}", match g.witnesses.len() { 0 => "0", 1 => "1", 2 => "2", 3..=4 => "3-4", 5..=8 => "5-8", _ => "9+" }));
+    if g.witnesses.iter().any(|(_, _, ty)| ty.size() >= 3) {
+        ctx.label("composite-witness-type");
+    }
     let env = pipe::dummy_env();
     let c = compile(&text, to_arguments(&g), t.bool(), "c05")?;
     let pm = g.param_map();
